@@ -23,6 +23,10 @@ TNext ==
       ELSE IF ev.e = "CrcBig" THEN
            LET exp == [ret |-> Sparse32(ev.seed, ev.head, ev.nzh, ev.nzl, ev.tail)] mm == Mismatch(ev, exp)
            IN IF mm # {} THEN Flag(l, SetToSeq(mm), exp) /\ sync' = TRUE ELSE sync' = TRUE
+      \* one buffer used twice: the value depends on the bytes the buffer holds at the time of the call, not on its address
+      ELSE IF ev.e = "CrcReuse" THEN
+           LET exp == [ret |-> Def(ev.fn, ev.seed, ev.data), ret2 |-> Def(ev.fn, ev.seed, ev.data2)] mm == Mismatch(ev, exp)
+           IN IF mm # {} THEN Flag(l, SetToSeq(mm), exp) /\ sync' = TRUE ELSE sync' = TRUE
       ELSE LET exp == [ret |-> Def(ev.fn, ev.seed, ev.data), chunked |-> Chunked(ev)]
                mm == Mismatch(ev, exp)
            IN IF mm # {} THEN Flag(l, SetToSeq(mm), exp) /\ sync' = TRUE ELSE sync' = TRUE
